@@ -36,7 +36,7 @@ Next == \/ phase = "m" /\ ~MDone /\ RTStep /\ UNCHANGED <<hvars, phase>>
         \/ /\ phase = "h" /\ HDone /\ phase' = "done"
            /\ PrintT(ToString(<<"HV", "R", prog, inp, Verdict, status, pc, TLCGet("level"), h.st,
                                 Class, h.wrap,
-                                IF Class \in {"agree", "inconclusive"} THEN <<MObs>> ELSE <<MObs, HObs>> >>))
+                                IF Class = "agree" THEN <<MObs>> ELSE <<MObs, HObs>> >>))
            /\ UNCHANGED <<mvars, rvars, hvars>>
 Spec == Init /\ [][Next]_vars
 Fuel == TLCGet("level") <= MaxLevel
